@@ -173,3 +173,9 @@ Proof.
   split; [reflexivity|]. split; [reflexivity|]. intros k d Hk. split; apply map_nth.
 Qed.
 Print Assumptions C15_model_list_hyperparameters_one_entry_per_objective.
+
+(* what separates the wrapper's stores from the caller's arrays: the regenerated to_tensor copies everything that is not a tensor *)
+From VOPyGen Require Gen_extra4.
+Theorem C15_stores_do_not_share_memory_with_callers_arrays : Gen_extra4.gen_to_tensor_copies_non_tensors = true.
+Proof. reflexivity. Qed.
+Print Assumptions C15_stores_do_not_share_memory_with_callers_arrays.
